@@ -3,10 +3,10 @@
 set -u
 patch=$1; id=$2; tier=${3:-quick}
 cd /repo || exit 2
-if ! git diff --quiet; then echo "repo dirty, refusing"; exit 2; fi
+if [ -n "$(git status --porcelain)" ]; then echo "repo dirty, refusing"; exit 2; fi
 git apply "$patch" || { echo "patch does not apply"; exit 3; }
 /verif/bin/govc check "$id" --tier "$tier"
 rc=$?
-git checkout -- . ; git clean -fdq -- . >/dev/null 2>&1
+git checkout -- . ; git clean -fdq
 echo "exit=$rc"
 exit $rc
